@@ -185,7 +185,7 @@ def gen_config(rng, nsvc=None, nparams=None, valid=True, imp="fx", scopes=True, 
                 s["type"] = ("" if valtype else "*") + imp + ".Obj"
             if rng.random() < 0.4:
                 s["must_getter"] = rng.random() < 0.7
-        if not valtype:
+        if not valtype and form in ("ctor", "ctorerr"):
             if rng.random() < 0.4:
                 s["calls"] = []
                 for _ in range(rng.randint(1, 3)):
